@@ -160,6 +160,13 @@ Rec == [in |-> SetToSeq(inp), missing |-> missing, rejected |-> pc = "rejected",
                  \E x \in inp : x.v \notin {"1", "2"}, Cardinality({x.s : x \in inp}),
                  \* an empty window between two populated ones (the nextSampleTs skip)
                  \E a, b \in WindowsOf(inp) : b > a + 1 /\ \A w \in (a + 1)..(b - 1) : w \notin WindowsOf(inp),
+                 \* ... and where the first sample after the gap lies: negative and unaligned / negative and on a
+                 \* window start / not negative (any arithmetic on nextSampleTs must floor, not truncate)
+                 {IF MinOf({x.ts : x \in Part(inp, b)}) >= 0 THEN "pos"
+                  ELSE IF MinOf({x.ts : x \in Part(inp, b)}) % D = 0 THEN "neg-aligned" ELSE "neg-unaligned" :
+                    b \in {w \in WindowsOf(inp) : (w - 1) \notin WindowsOf(inp) /\ \E a \in WindowsOf(inp) : a < w}},
+                 \* number of consecutive empty windows before a populated negative one
+                 Cardinality({w \in (0 - WNeg)..(0 - 1) : w \notin WindowsOf(inp) /\ \E a, b \in WindowsOf(inp) : a < w /\ w < b /\ b <= 0}),
                  Len(blocks)>>]
 
 EmitState == EmitMode = "none" \/ pc \notin {"done", "rejected"} \/ PrintT("@@TR " \o ToJson(Rec))
